@@ -20,7 +20,12 @@ def gen_cases(tier):
             # coefficients that cancel when one variable is renamed onto another: the renamed row has no
             # variable left and means TRUE (bound >= 0) or FALSE (bound < 0)
             c_ = rng.choice([-1, -2, 1, 0])
-            if rng.random() < 0.5:
+            r_ = rng.random()
+            if r_ < 0.25:
+                # nothing but the cancelling row: after the rename no variable is left in the whole contract
+                d = {"inv": ["i", "s"], "outv": [], "a": [({"i": 1, "s": -1}, abs(c_))], "g": [({"i": 1, "s": -1}, abs(c_) + 2)] if rng.random() < 0.5 else []}
+                pairs = [("i", "s"), ("s", "i"), ("i", "fresh")]
+            elif r_ < 0.6:
                 d = {"inv": ["i", "s", "j"], "outv": ["o"], "a": [({"i": 1, "s": -1}, c_), ({"j": 1}, 3)], "g": [({"o": 1, "j": -1}, 2)] if rng.random() < 0.5 else []}
                 pairs = [("i", "s"), ("s", "i"), ("i", "fresh"), ("j", "i")]
             else:
